@@ -2937,7 +2937,7 @@ def SIS_heterogeneous_pairwise(Sk0, Ik0, SkSl0, SkIl0, IkIl0, tau, gamma,
         SkIl = X.T[kcount+kcount**2:]
         SkSl.shape = (kcount,kcount,tcount)
         SkIl.shape = (kcount,kcount,tcount)
-        IkIl = NkNl - SkSl - SkIl - SkIl.T
+        IkIl = NkNl[:,:,None] - SkSl - SkIl - SkIl.transpose(1,0,2)
         return times, S, I, Sk, Ik, SkIl, SkSl, IkIl
     else:
         return times, S, I
